@@ -160,6 +160,53 @@ def rewired_cases(ctx, quick):
                              'respected: order %s' % (r[1],), rep)
 
 
+def real_order_restated(n, adj, times):
+    """the same graph with every requirement stated `times` times (two apps may each declare the same requirement:
+    A's BEFORE_EVOLUTIONS and B's AFTER_EVOLUTIONS): a requirement stated twice is the requirement"""
+    from django_evolution.utils.graph import DependencyGraph
+    g = DependencyGraph()
+    for i in range(n):
+        g.add_node('n%d' % i)
+    for _ in range(times):
+        for x, ds in enumerate(adj):
+            for d in ds:
+                g.add_dependency('n%d' % x, 'n%d' % d)
+    try:
+        g.finalize()
+        order = [int(nd.key[1:]) for nd in g.get_ordered()]
+    except Exception as e:
+        return ('error', type(e).__name__)
+    return ('ok', order)
+
+
+def restated_cases(ctx, quick):
+    """acyclic graphs whose requirements are stated two and three times: the order respects every one of them;
+    cyclic graphs stated twice are still reported"""
+    done = 0
+    for n in (2, 3, 4):
+        for adj in graphs_exhaustive(n, False):
+            if not any(adj):
+                continue
+            acyclic = is_acyclic(n, adj)
+            for times in (2, 3):
+                if quick and n == 4 and (done % 6):
+                    done += 1
+                    continue
+                done += 1
+                r = real_order_restated(n, adj, times)
+                ctx.count('restated:%s' % r[0])
+                ctx.case({'n': n, 'adj': adj, 'stated': times}, nontrivial=True, sample_cap=3)
+                rep = {'kind': 'restated', 'n': n, 'adj': adj, 'times': times, 'observed': list(r)}
+                if acyclic and r[0] != 'ok':
+                    ctx.fail(None, 'an acyclic graph whose requirements are stated %d times cannot be ordered: %s'
+                             % (times, r[1]), rep)
+                elif acyclic and not order_ok(n, adj, r[1]):
+                    ctx.fail(None, 'a requirement stated %d times is not respected: order %s' % (times, r[1]), rep)
+                elif not acyclic and r[0] == 'ok':
+                    ctx.fail(None, 'cyclic requirements stated %d times are not reported as an error: order %s'
+                             % (times, r[1]), rep)
+
+
 def is_acyclic(n, adj):
     state = [0] * n
 
@@ -316,6 +363,7 @@ def run(ctx):
     quick = ctx.tier == 'quick'
     late_node_cases(ctx, quick)
     rewired_cases(ctx, quick)
+    restated_cases(ctx, quick)
     # ---- core: exhaustive + random -----------------------------------------
     reqs, cases = [], []
     for n, loops in ((1, True), (2, True), (3, True), (4, False)):
@@ -435,6 +483,11 @@ def replay(ctx, obj):
         real = real_order_rewired(r['n'], r['adj'], r['node'])
         print('graph n=%d adj=%r rewired node=%r -> %r' % (r['n'], r['adj'], r['node'], real))
         return 0 if real[0] == 'ok' and order_ok(r['n'], r['adj'], real[1]) else 1
+    if r.get('kind') == 'restated':
+        real = real_order_restated(r['n'], r['adj'], r['times'])
+        print('graph n=%d adj=%r stated %d times -> %r' % (r['n'], r['adj'], r['times'], real))
+        acyclic = is_acyclic(r['n'], r['adj'])
+        return 0 if (acyclic and real[0] == 'ok' and order_ok(r['n'], r['adj'], real[1])) or (not acyclic and real[0] != 'ok') else 1
     if r.get('kind') == 'units':
         real = real_batches(r['units'])
         ex = [i for _, ids in real for i in ids]
